@@ -90,6 +90,51 @@ fn read_all_inner(data: Vec<u8>) -> (Vec<String>, End, bool) {
     match r { Ok(x) => x, Err(p) => (vec![], End::Panic(p), true) }
 }
 
+/// The reader's result must not depend on how the buffer was filled: from a
+/// byte slice, through `Zonefile::load` (any `io::Read`), by `extend_from_slice`
+/// in pieces, through the `BufMut` interface, or from a `&str` (when the octets
+/// happen to be UTF-8). Full observation: entries, ending, and the complete
+/// error text with its position.
+const CTORS: [&str; 5] = ["slice", "load", "extend", "bufmut", "str"];
+
+fn read_ctor(data: &[u8], ctor: usize) -> Option<String> {
+    let d = data.to_vec();
+    let cap = d.len() + 8;
+    let r = catch(move || {
+        let mut z = match ctor {
+            0 => Zonefile::from(&d[..]),
+            1 => { let mut rd = &d[..]; match Zonefile::load(&mut rd) { Ok(z) => z, Err(e) => return Some(format!("LOAD-FAILED {:?}", e.kind())) } }
+            2 => { let mut z = Zonefile::new(); let h = d.len() / 2; z.extend_from_slice(&d[..h]); z.extend_from_slice(&d[h..]); z }
+            3 => { use bytes::BufMut; let mut z = Zonefile::with_capacity(0); for ch in d.chunks(7) { z.put_slice(ch); } z }
+            _ => match std::str::from_utf8(&d) { Ok(t) => Zonefile::from(t), Err(_) => return None },
+        };
+        let mut o = String::new();
+        let mut n = 0;
+        loop {
+            match z.next_entry() {
+                Ok(Some(e)) => { o.push_str(&show_entry(&e)); o.push(' '); n += 1; if n > cap { o.push_str("CAP"); return Some(o); } }
+                Ok(None) => { o.push_str("EOF"); return Some(o); }
+                Err(e) => { o.push_str("ERR "); o.push_str(&e.to_string()); return Some(o); }
+            }
+        }
+    });
+    match r { Ok(x) => x, Err(p) => Some(format!("PANIC {}", p)) }
+}
+
+fn constructors_agree(out: &mut Out, data: &[u8]) {
+    let d = data.to_vec();
+    let (tx, rx) = std::sync::mpsc::channel();
+    std::thread::spawn(move || { let v: Vec<Option<String>> = (0..CTORS.len()).map(|k| read_ctor(&d, k)).collect(); let _ = tx.send(v); });
+    let v = match rx.recv_timeout(std::time::Duration::from_secs(HANG_SECS + HANG_RETRY_SECS)) { Ok(v) => v, Err(_) => { out.count("constructors_skipped_no_answer"); return; } };
+    let c = format!("read {}", hex(data));
+    let base = v[0].clone().unwrap_or_default();
+    for k in 1..CTORS.len() {
+        if let Some(o) = &v[k] {
+            out.check(*o == base, &format!("constructor_dependent_{}", CTORS[k]), &c, &format!("{} <> {}", o, base));
+        }
+    }
+}
+
 /// Every read runs in its own thread: a reader that does not come back within
 /// `HANG_SECS` is abandoned (the thread keeps spinning) and reported as a hang,
 /// so that one hanging input does not end the whole run.
@@ -338,6 +383,7 @@ fn totality(out: &mut Out, el: &Elig, po: &mut ParsedOracle, kind: &str, data: &
         End::Err(_) => out.check(pos, "error_position_missing_or_out_of_range", &c, "the error carries no line:column, or one that lies outside the file"),
         End::Eof => out.check(true, "panic_reader", &c, ""),
     }
+    if !matches!(e, End::Hang | End::Panic(_) | End::Cap) { constructors_agree(out, data); }
     if !matches!(e, End::Hang) { po.run(out, data); }
     (v, e)
 }
